@@ -130,6 +130,10 @@ Linear_Expression_Impl<Row>
     set_space_dimension(y.space_dimension());
   }
   linear_combine(y, c1, c2, 0, y.space_dimension() + 1);
+  if (space_dimension() > y.space_dimension()) {
+    // The coefficients that `y' lacks are zero: they only get scaled.
+    mul_assign(c1, y.space_dimension() + 1, space_dimension() + 1);
+  }
   PPL_ASSERT(OK());
 }
 
@@ -144,6 +148,10 @@ Linear_Expression_Impl<Row>
     set_space_dimension(y.space_dimension());
   }
   linear_combine_lax(y, c1, c2, 0, y.space_dimension() + 1);
+  if (space_dimension() > y.space_dimension()) {
+    // The coefficients that `y' lacks are zero: they only get scaled.
+    mul_assign(c1, y.space_dimension() + 1, space_dimension() + 1);
+  }
   PPL_ASSERT(OK());
 }
 
